@@ -405,6 +405,14 @@ def automatic_limit_checks(ctx):
     c18.automatic_limit_checks(ctx)
 
 
+@rule('C04.R7b', min_instances=1)
+def limit_check_installed_whatever_a_parent_defines(ctx):
+    """shared with C18.R2c: a request has to satisfy the module's CURRENT dynamic limits - the automatic limit check is installed
+    unless the class itself defines the hook (an inherited hand-written check_<p> must not suppress it)"""
+    from sa.rules import c18
+    c18.limit_check_is_installed_whatever_a_parent_defines(ctx)
+
+
 @rule('C04.R8', min_instances=1)
 def value_slots_tested_by_identity(ctx):
     """shared with C06.R7"""
